@@ -173,6 +173,15 @@ def subqueryComparison (c : Cfg) (op quantifier : String) (v : Val) (xs : List V
   | some o => some (subqLoop (nullIfAny2 (pyCmp o)) (quantifier == "ANY") v xs false)
   | none => none
 
+/-- the ENV entry SUBQUERY_COMPARISON as PythonExecutor.__init__ registers it: the bound method itself, or (`wrapped`)
+    `null_if_any("value")(self._subquery_comparison)`, which answers None for a None probe without looking at the rows -/
+def subqueryComparisonEnv (wrapped : Bool) (c : Cfg) (op quantifier : String) (v : Val) (xs : List Val) : Option Val :=
+  if wrapped && v.isNull then some .null else subqueryComparison c op quantifier v xs
+
+/-- `x NOT IN (subquery)`: PythonGenerator's `NOT(SUBQUERY_COMPARISON(x, …, 'EQ', 'ANY'))` -/
+def notInSubquery (wrapped : Bool) (c : Cfg) (v : Val) (xs : List Val) : Option Val :=
+  (subqueryComparisonEnv wrapped c "EQ" "ANY" v xs).map sqlNot
+
 /-- env.filter_nulls(func, empty_null) -/
 def filterNulls (f : List Val → Val) (emptyNull : Bool) (vs : List Val) : Val :=
   let filtered := vs.filter (!·.isNull)
